@@ -181,9 +181,12 @@ func (s *ORSet) Merge(other ReplicatedData) ReplicatedData {
 // Returns nil if there are no changes. The returned delta can be used
 // as a ReplicatedData and merged into a peer's ORSet.
 //
-// The delta carries only the newly-added entries and a clock scoped to
-// the nodes that produced those dots. This prevents a peer from treating
-// the full clock as evidence that unseen dots have been removed.
+// The delta carries a clock scoped to the nodes whose dots were added or
+// removed, and every live dot that clock covers. A peer treats a dot that is
+// covered by the clock of the merged state but absent from its entries as
+// removed, so the entries must list all live dots of the covered range, not
+// only the new ones; a dot that was added and removed again since the last
+// ResetDelta is covered by the clock but not listed, so it is not revived.
 func (s *ORSet) Delta() ReplicatedData {
 	if len(s.delta.added) == 0 && len(s.delta.removed) == 0 {
 		return nil
@@ -194,11 +197,9 @@ func (s *ORSet) Delta() ReplicatedData {
 		clock:   make(map[string]uint64),
 		delta:   newORSetDelta(),
 	}
-	for elem, dots := range s.delta.added {
-		cloned := cloneDots(dots)
-		d.entries[elem] = cloned
+	for _, dots := range s.delta.added {
 		// Include only clock entries for nodes that produced new dots.
-		for _, dt := range cloned {
+		for _, dt := range dots {
 			if c, ok := s.clock[dt.nodeID]; ok {
 				if c > d.clock[dt.nodeID] {
 					d.clock[dt.nodeID] = c
@@ -214,6 +215,16 @@ func (s *ORSet) Delta() ReplicatedData {
 		for _, dt := range dots {
 			if dt.counter > d.clock[dt.nodeID] {
 				d.clock[dt.nodeID] = dt.counter
+			}
+		}
+	}
+	// List every live dot the delta clock covers: the new dots that are still
+	// present and the older dots of the same nodes, which the peer would
+	// otherwise take for removed.
+	for elem, dots := range s.entries {
+		for _, dt := range dots {
+			if isDominated(dt, d.clock) {
+				d.entries[elem] = append(d.entries[elem], dt)
 			}
 		}
 	}
